@@ -177,6 +177,18 @@ func cmdCheck(args []string) int {
 				run.SolverTime[k] += v
 			}
 			cfg.Syntactic = append(cfg.Syntactic, pc.Syntactic...)
+			// the evidence lists the assumptions of every part, once
+			for _, a := range pc.Assumptions {
+				dup := false
+				for _, b := range cfg.Assumptions {
+					if a == b {
+						dup = true
+					}
+				}
+				if !dup {
+					cfg.Assumptions = append(cfg.Assumptions, a)
+				}
+			}
 			for _, k := range pc.Inline {
 				cfg.Inline = append(cfg.Inline, k)
 			}
@@ -492,7 +504,7 @@ func writeEvidence(cfg *PropConfig, run *PropRun, tier string, seed int, wall fl
 	trusted = append(trusted,
 		"govc SSA-to-SMT semantics (memory model, instruction semantics) over golang.org/x/tools/go/ssa v0.29.0",
 		"SMT solvers z3 4.8.12, z3 5.1.0 (z3-new), cvc5 1.0.3 (first definite answer; thorough tier runs all and requires agreement)",
-		"trusted models of bytes.Buffer, encoding/binary.Read/Write/ByteOrder, math.Float32bits/frombits, sync/atomic, append/copy (stdlib.go)")
+		"trusted models of bytes.Buffer, encoding/binary.Read/Write/ByteOrder, math.Float32bits/frombits, sync/atomic, sync.Mutex/RWMutex (ghost lock state), sync.Pool (opaque), append/copy; package strings (Contains, HasPrefix, HasSuffix, ToLower, Split) and rune conversions only as uninterpreted functions / length bounds (stdlib.go, instr.go)")
 	for _, k := range run.Trusted {
 		trusted = append(trusted, "trusted contract (not verified against its body): "+strings.TrimPrefix(k, libPrefix))
 	}
